@@ -286,6 +286,11 @@ mod wasm;
 #[cfg(grex_verif)]
 pub mod verif;
 
+// The WebAssembly wrapper compiled natively against a stand-in for wasm_bindgen (verification only).
+#[cfg(all(grex_verif_wasm, not(target_family = "wasm")))]
+#[path = "wasm.rs"]
+pub mod wasm_native;
+
 pub use builder::RegExpBuilder;
 
 #[cfg(target_family = "wasm")]
